@@ -4,5 +4,9 @@ package reader
 
 import "github.com/zilliztech/milvus-cdc/core/config"
 
-func c13Retry() config.RetrySettings { return config.RetrySettings{RetryTimes: 1, InitBackOff: 1, MaxBackOff: 1} }
+// RETRY: attempts of the retry settings handed to the real code (default 1; entries that need a
+// real back-off between attempts set RETRY together with the executor's R / RY parameters)
+func c13Retry() config.RetrySettings {
+	return config.RetrySettings{RetryTimes: vParam("RETRY", 1), InitBackOff: 1, MaxBackOff: 1}
+}
 func c13ReaderCfg() config.ReaderConfig { return config.ReaderConfig{Retry: c13Retry()} }
